@@ -18,7 +18,7 @@ Two passes: *as installed* (msgpack is absent in this sandbox: the compact codec
 
 Grammar (shape terms; D = depth bound, 2 quick / 3 thorough):
   atom   := int | float | str | bytes | bool | Enum (value != name, one member's value is another's name)
-            [thorough: + an ``int``-mixin Enum]
+            [thorough: + an ``int``-mixin Enum, up to depth 2]
   elem_d := atom | list[E_{d-1}] | frozenset[hashable E_{d-1}] | dict[K, E_{d-1}] | DC(field_{d-1})
   E_d    := elem_d | Optional[elem_d]             K := str | int | Enum
   field_d:= E_d | pa.Schema | pa.RecordBatch | Annotated[int, ArrowType(int32)] (+ Optional of those)
@@ -56,7 +56,7 @@ from typing import Annotated, Any, Protocol
 PROPERTY = "C03"
 LEVEL = "exploration"
 ENGINE = "E1-SEQ"
-SHARDS = {"quick": 4, "thorough": 8}
+SHARDS = {"quick": 4, "thorough": 16}
 TECHNIQUE = "exhaustive enumeration of a field-annotation grammar x boundary instances through the real codecs, differential between codecs"
 RULE = (
     "all single-field dataclasses over the annotation grammar to depth 2 (quick) / 3 (thorough) x forms "
@@ -546,9 +546,15 @@ class World:
 
 
 def items(thorough: bool) -> list[Any]:
-    d = 3 if thorough else 2
     atoms = ATOMS_T if thorough else ATOMS_Q
-    _, fields = grammar(atoms, d)
+    if thorough:
+        # depth 3 over the six basic atoms + depth 2 over all seven (the int-mixin Enum adds nothing new below depth 2)
+        _, f3 = grammar(ATOMS_Q, 3)
+        _, f2 = grammar(ATOMS_T, 2)
+        s3 = set(f3)
+        fields = f3 + [f for f in f2 if f not in s3]
+    else:
+        _, fields = grammar(atoms, 2)
     out: list[Any] = []
     extra_tops: list[Any] = []
     _, f1 = grammar(atoms, 1 if thorough else 0)
